@@ -98,6 +98,17 @@ def _qsmall(p):
     return np.r_[math.cos(h), math.sin(h) * refs.unit(p["axis"])]
 
 
+def _uq_interp_close(p):
+    """UnitQuaternion(R0).interp(s, UnitQuaternion(R1)) for two close rotations; next to a half turn the two extracted
+    quaternions can be antipodal (q and -q of nearly the same rotation): the long way round between them is a full turn about
+    no particular axis, which the library may refuse - only then is an exception not judged"""
+    U0 = L.UnitQuaternion(refs.pose3_of(p["X"])[:3, :3].copy())
+    U1 = L.UnitQuaternion(_close_to(p, False))
+    if float(np.dot(np.asarray(U0.vec, dtype=float), np.asarray(U1.vec, dtype=float))) < -1.0 + 1e-6:
+        return _maybe(lambda: U0.interp(p["s"], U1), "q")
+    return [(U0.interp(p["s"], U1), "q")]
+
+
 def _close_to(p, se):
     """a pose whose rotation differs from X by the small angle p['close'] about p['axis']"""
     T = refs.pose3_of(p["X"])
@@ -184,7 +195,8 @@ ENTRIES = {
                                (B().slerp(refs.q_of(p["X"]["rot"]), B().r2q(_close_to(p, False)), p["s"], True), "q"),
                                (L.SE3(_close_to(p, True)).interp(p["s"], L.SE3(refs.pose3_of(p["X"]))), "SE3"),
                                (L.SO3(_close_to(p, False)).interp(p["s"], L.SO3(refs.pose3_of(p["X"])[:3, :3].copy())), "SO3"),
-                               (L.UnitQuaternion(refs.pose3_of(p["X"])[:3, :3].copy()).interp(p["s"], L.UnitQuaternion(_close_to(p, False))), "q"),
+                               ] + _uq_interp_close(p) + [
+                               
                                (L.SO3(refs.rodrigues(p["axis"], p["close"])).interp(p["s"]), "SO3"),
                                (L.UnitQuaternion(refs.rodrigues(p["axis"], p["close"])).interp(p["s"]), "q")],
     # nearly opposite quaternions (the same or nearly the same rotation written with the other sign; a rotation just short of a
@@ -335,7 +347,12 @@ def _eval(t, cn, ps, seen):
     elif k == "interp":
         x = _eval(t[1], cn, ps, seen)
         # UnitQuaternion.interp is documented for a single value only
-        r = x.interp(t[2]) if not (cn == "UnitQuaternion" and len(x) > 1) else x
+        if cn == "UnitQuaternion" and len(x) == 1 and float(np.asarray(x.vec, dtype=float)[0]) < -1.0 + 1e-9:
+            # minus identity: a full turn about no particular axis - the path from the identity to it is not defined (the
+            # quaternions are antipodal), the library may refuse; not a case of this property
+            r = x
+        else:
+            r = x.interp(t[2]) if not (cn == "UnitQuaternion" and len(x) > 1) else x
     elif k == "norm":
         x = _eval(t[1], cn, ps, seen)
         r = x.norm() if cn in ("SO3", "SE3") else (x.unit() if cn == "UnitQuaternion" else x)
